@@ -46,8 +46,8 @@ def run(ctx):
             P.append((gen.tt(i2a(v)), gen.tt(deep)))
             P.append((gen.tt(b"\x00" + i2a(v)), gen.tt(deep)))
     lines = []
-    for p, e in P + [(p, e) for p, e, _ in pool]:
-        f = gen_prog.random_flags(r, 0.12)
+    for p, e, tag in [(p, e, "") for p, e in P] + pool:
+        f = runlib.pick_flags(r, tag, 0.12)
         m = r.choice([0, 0, 11000000000, r.randrange(1, 10 ** 5)])
         kw = {"enc": r.randrange(1, 10 ** 6)} if r.random() < 0.3 else {}
         lines.append(run_line(p, e, f=f, m=m, **kw))
